@@ -742,10 +742,25 @@ def run_cases(run, cases, exe, drv):
     return results
 
 
+def _with_files(script, lines):
+    """Replays stay usable after the scratch directory is gone: the generated XML documents a case reads are appended."""
+    out = script
+    for l in lines:
+        if l.startswith("src xml ") and "/hwv-snap-" in l:
+            pth = l[8:]
+            try:
+                txt = open(pth).read()
+                if len(txt) < 60000:
+                    out += "\n--- file %s\n%s" % (pth, txt)
+            except OSError:
+                pass
+    return out
+
+
 def judge(run, cases, results):
     for i, (name, lines, kind) in enumerate(cases):
         r = results.get(i)
-        script = "\n".join(["new"] + lines + ["load", "dump", "check", "destroy"])
+        script = _with_files("\n".join(["new"] + lines + ["load", "dump", "check", "destroy"]), lines)
         if r is None:
             run.violation("not-run:" + kind, "case did not run (earlier crash in the same shard)", script, no_input=True)
             continue
@@ -765,7 +780,11 @@ def judge(run, cases, results):
                 clauses = sorted(set(re.findall(r"([a-z-]+)@", r["wf"] or "")))
                 run.violation("wf:%s:%s" % (kind, ",".join(clauses)), "loaded topology violates WF clause(s) %s: %s" % (clauses, name),
                               script + "\n--- verdict\n" + (r["wf"] or "no verdict") )
-            if r.get("levels") != "levels ok":
+            if r.get("levels") == "levels ok after-merge":
+                # the load-time KEEP_STRUCTURE pass left level arrays that a fresh hwloc_connect_levels would not build
+                # (Topo/InsertTie.v levels_agree_after_merge: the arrays built before the pass minus the removed objects)
+                run.cov["loads_with_levels_kept_from_before_the_merge"] = run.cov.get("loads_with_levels_kept_from_before_the_merge", 0) + 1
+            if r.get("levels") not in ("levels ok", "levels ok after-merge"):
                 # the model of hwloc_connect_levels disagrees with the implementation: if wf_check is also unhappy
                 # this is a violation with a concrete input (above); otherwise the correspondence is broken
                 run.violation("correspondence:levels:%s" % kind, "model of hwloc_connect_levels/special lists disagrees with the implementation on %s" % name,
